@@ -8,7 +8,7 @@
 From stdpp Require Import gmap list.
 From Coq Require Import ZArith.
 From KT Require Import Space Discover Cover.
-From KT Require G3 GR GQ GT2 GValid Lifecycle Rand EnsureIdem.
+From KT Require G3 GR GQ GT2 GValid Lifecycle Rand EnsureIdem BayesVec.
 
 Theorem C05_exactly_active : ∀ (draw : nat → hp → value) sp v k, wo [] sp →
   let v' := (ensure_go draw sp sp v k).1 in
@@ -24,6 +24,21 @@ Theorem C05_random_values_exactly_active : ∀ (samp : nat → Z → value) (dra
   wo [] sp → Rand.random_values samp draw mc fuel sp tried seed col = (Some v, seed') →
   ∀ h, h ∈ sp → (is_Some (v !! h_name h) ↔ conds_active v (h_conds h) = true).
 Proof. exact EnsureIdem.random_values_exactly_active. Qed.
+
+(* ---- the Bayesian oracle: _vector_to_values, the glue between the optimiser's vector and the trial's values, for ANY space
+   (names may be shared between entries) and any vector: every value of the result was assigned by an entry of that very name,
+   and is that entry's own prob_to_value of its own vector component (Fixed entries consume none), its fixed value or its
+   default - never a value computed for another entry; an entry that is inactive at its turn changes nothing *)
+Theorem C05_bayes_vector_provenance : ∀ (fixed : hp → bool) (p2v : nat → nat → value) (sp : list hp),
+  BayesVec.Prov fixed p2v sp (BayesVec.vector_to_values fixed p2v sp).
+Proof. exact BayesVec.vector_to_values_provenance. Qed.
+Theorem C05_bayes_inactive_entry_skips : ∀ (fixed : hp → bool) (p2v : nat → nat → value) h rest idx vi s,
+  s_conds s = [] → conds_active (s_values s) (h_conds h) = false →
+  BayesVec.v2v fixed p2v (h :: rest) idx vi s =
+  BayesVec.v2v fixed p2v rest (S idx) (if fixed h then vi else S vi)
+      {| s_scopes := s_scopes s; s_conds := s_conds s; s_space := s_space s ++ [h]; s_values := s_values s;
+         s_active := s_active s; s_inactive := s_inactive s |}.
+Proof. exact BayesVec.v2v_inactive_skips. Qed.
 
 (* ---- the grid oracle: production of the values themselves. Every element of the enumeration `combos` is a valid assignment
    (a value for exactly the active entries, each taken from [default] + values) ... *)
@@ -46,6 +61,8 @@ Proof. cbn. split; [|reflexivity]. repeat split; try set_solver; repeat construc
 
 Print Assumptions C05_exactly_active.
 Print Assumptions C05_random_values_exactly_active.
+Print Assumptions C05_bayes_vector_provenance.
+Print Assumptions C05_bayes_inactive_entry_skips.
 Print Assumptions C05_grid_combination_valid.
 Print Assumptions C05_grid_trials_valid.
 Print Assumptions C05_other_names_untouched.
